@@ -229,3 +229,34 @@ Print Assumptions C17_two_way_reading.
 Print Assumptions C17_view_ops_two_way.
 Print Assumptions C17_view_get_complete.
 Print Assumptions C17_store_errors.
+
+(* ---- iterators and export, the other direction (PartialReads.v): where the complete tree answers, the partial tree
+        gives the same answer or fails with a navigation / index error ---- *)
+Theorem C17_iterators_complete : forall H src n m depth len, sn H n m ->
+  (forall ms, node_iter src m depth len = Ok ms ->
+     (exists ns, node_iter src n depth len = Ok ns /\ Forall2 (sn H) ns ms) \/ (exists e, node_iter src n depth len = Err e /\ (e = ENav \/ e = EIndex))) /\
+  (forall e size ys, packed_iter H src m depth len e size = Ok ys ->
+     packed_iter H src n depth len e size = Ok ys \/ (exists er, packed_iter H src n depth len e size = Err er /\ (er = ENav \/ er = EIndex))) /\
+  (forall ys, bit_iter H src m depth len = Ok ys ->
+     bit_iter H src n depth len = Ok ys \/ (exists er, bit_iter H src n depth len = Err er /\ (er = ENav \/ er = EIndex))).
+Proof.
+  intros H src n m depth len Hs. repeat split.
+  - intros ms Hm. exact (c_node_iter H src n m depth len Hs ms Hm).
+  - intros e size ys Hm. destruct (c_packed_iter H src n m depth len e size Hs ys Hm) as [(xs & Hx & ->)|E]; [left; exact Hx|right; exact E].
+  - intros ys Hm. destruct (c_bit_iter H src n m depth len Hs ys Hm) as [(xs & Hx & ->)|E]; [left; exact Hx|right; exact E].
+Qed.
+
+Theorem C17_export_complete : forall H src t n m o, sn H n m -> to_obj H src t m = Ok o ->
+  to_obj H src t n = Ok o \/ (exists e, to_obj H src t n = Err e /\ (e = ENav \/ e = EIndex)).
+Proof. intros H src t n m o Hs Ho. destruct (c_to_obj H src t n m Hs o Ho) as [(o' & Ho' & ->)|E]; [left; exact Ho'|right; exact E]. Qed.
+
+(* for a tree representing a value: the export of any partial version of it is the value's export or a navigation / index error *)
+Theorem C17_export_total : forall H src t v n m n0, wf_ty t = true -> fields_ok t = true -> wf t v = true ->
+  Repr H t v m -> mk H t v = Ok n0 -> sn H n m ->
+  (exists o, to_obj H src t n = Ok o /\ to_obj H src t m = Ok o /\ from_obj H t o = Ok n0) \/
+  (exists e, to_obj H src t n = Err e /\ (e = ENav \/ e = EIndex)).
+Proof. exact partial_export_total. Qed.
+
+Print Assumptions C17_iterators_complete.
+Print Assumptions C17_export_complete.
+Print Assumptions C17_export_total.
